@@ -1,7 +1,9 @@
 """C14 - loss gradients through the hedger are the true gradients (necessary structural conditions).
 R1 on the data-dependence slice from the model output to the loss every operator is differentiable and nothing breaks the graph;
 R2 the recurrent prev_hedge input is the stored model output itself; R3 in-place stores on the slice target fresh tensors;
-R4 losses are computed with gradients enabled by default, prices without."""
+R4 losses are computed with gradients enabled by default, prices without, and everything from simulate to the criterion runs inside the
+caller's grad-mode region; R5 the functionals models are built from (clamps, Whalley-Wilmott width, SVI, Black-Scholes closed forms) do not
+break the graph between any tensor argument and their result."""
 from .. import world as W
 from ..alias import root
 from ..interp import Obj, Unsupported
@@ -162,3 +164,134 @@ def check(ctx, run):
         run.oblige("C14.R4", f"{fi.node.name}: enable_grad defaults to {want}", ok, "")
         if not ok:
             run.fail(Finding("C14.R4", fi.qualname, "enable_grad default", f"{fi.node.name} must {'keep' if want else 'drop'} the graph by default", file=str(prog.modules[fi.module].path), line=fi.node.lineno))
+    grad_region_rule(ctx, run)
+    building_blocks_rule(ctx, run)
+
+
+def grad_region_rule(ctx, run):
+    """R4 (regions): in compute_loss and price everything that touches tensors - simulate, the hedge/portfolio, the payoff and the
+    criterion (resp. criterion.cash) - happens while torch.set_grad_enabled(<the caller's enable_grad>) is in force, so an
+    evaluation-only quantity carries no graph even when the criterion owns parameters, and a training loss keeps all of it.
+    Decided on the event order of the interpreted functions (helper extraction is transparent; the region is dynamic, not textual)."""
+    prog, interp = ctx.prog, ctx.interp
+    run.require("C14.R4", 6)
+    hh = W.hedger(prog, [W.feature("Moneyness", log=False)])
+    hh.attrs["criterion"] = Obj("user.Criterion", "criterion")
+    eg = Sym("enable_grad", ("bool",))
+    for name, extra in (("compute_loss", {}), ("price", {})):
+        fi = prog.lookup_method(W.HEDGER, name)
+        if fi is None:
+            raise AnalysisError(f"anchor vanished: Hedger.{name}")
+        for nt in (1, 2):
+            res = [r for r in interp.explore(fi, [W.option()], dict(n_paths=W.integer("n_paths"), n_times=nt, enable_grad=eg, **extra), self_obj=hh, max_paths=50) if not r["raises"]]
+            if not res:
+                raise AnalysisError(f"Hedger.{name}: no path")
+            problems = []
+            for r in res:
+                depth, regions = 0, []
+                seen = {"simulate": 0, "portfolio": 0, "criterion": 0, "payoff": 0}
+                for e in r["events"]:
+                    k = e["kind"]
+                    if k == "with_enter":
+                        for c in e["ctx"]:
+                            mode = c.attrs.get("mode") if isinstance(c, Obj) and c.cls == "torch.gradmode" else None
+                            if mode == "set_grad_enabled":
+                                regions.append(c)
+                                if c.attrs.get("arg") != eg:
+                                    problems.append(f"grad mode set from {c.attrs.get('arg')}, not from the caller's enable_grad")
+                                depth += 1
+                            elif mode is not None:
+                                problems.append(f"fixed grad mode region {mode} overrides the caller's enable_grad")
+                    elif k == "with_exit":
+                        for c in e["ctx"]:
+                            if isinstance(c, Obj) and c.cls == "torch.gradmode" and c.attrs.get("mode") == "set_grad_enabled":
+                                depth -= 1
+                    else:
+                        what = None
+                        if k == "call" and e["callee"].endswith("BaseDerivative.simulate"):
+                            what = "simulate"
+                        elif k == "call" and e["callee"].endswith("Hedger.compute_portfolio"):
+                            what = "portfolio"
+                        elif k == "call" and e["callee"].endswith("BaseDerivative.payoff"):
+                            what = "payoff"
+                        elif k in ("opaque_call", "module_call") and (getattr(e.get("callee"), "name", "") in ("criterion", "criterion.cash") or getattr(e.get("recv"), "name", "") == "criterion"):
+                            what = "criterion"
+                        if what:
+                            seen[what] += 1
+                            if depth < 1:
+                                problems.append(f"{what} is evaluated outside the set_grad_enabled(enable_grad) region")
+                for w_ in ("simulate", "portfolio", "criterion"):
+                    if seen[w_] < nt:
+                        problems.append(f"{w_} seen {seen[w_]} times for n_times={nt}")
+            problems = sorted(set(problems))
+            ok = not problems
+            run.oblige("C14.R4", f"{name}[n_times={nt}]: simulate, portfolio, payoff and criterion all run under set_grad_enabled(enable_grad)", ok, "; ".join(problems))
+            if not ok:
+                run.fail(Finding("C14.R4", fi.qualname, "; ".join(problems)[:300], "part of the evaluation escapes the caller's grad mode: an evaluation-only value can carry a graph (or a training loss lose part of it)",
+                                 file=str(prog.modules[fi.module].path), line=fi.node.lineno, case=f"n_times={nt}"))
+
+
+BLOCKS = ["leaky_clamp", "clamp", "ww_width", "svi_variance", "bilerp", "d1", "d2", "ncdf", "npdf", "realized_variance", "realized_volatility",
+          "bs_european_price", "bs_european_delta", "bs_european_gamma", "bs_european_binary_price", "bs_european_binary_delta", "bs_european_binary_gamma",
+          "bs_american_binary_price", "bs_american_binary_delta", "bs_american_binary_gamma", "bs_lookback_price"]
+
+
+def building_blocks_rule(ctx, run):
+    """R5: the functionals a hedging model is built from (clamps of the no-transaction band, Whalley-Wilmott width, SVI, the closed-form
+    Black-Scholes prices and Greeks and their helpers) pass gradients to every tensor argument their value depends on: on the
+    data-dependence slice from each tensor argument to the result there is no graph-breaking construct (detach, .data, item,
+    torch.tensor(t) / t.new_tensor(t) re-wrapping, integer casts, rounding)."""
+    import ast as _ast
+    prog, interp = ctx.prog, ctx.interp
+    run.require("C14.R5", 18)
+    F = "pfhedge.nn.functional."
+    for name in BLOCKS:
+        fi = prog.functions.get(F + name)
+        if fi is None:
+            raise AnalysisError(f"anchor vanished: {F + name}")
+        run.functions.add(fi.qualname)
+        a_ = fi.node.args
+        kw = {}
+        defaults = dict(zip([x.arg for x in a_.args][::-1], a_.defaults[::-1]))
+        tensors = []
+        for p_ in a_.args:
+            ann = _ast.unparse(p_.annotation) if p_.annotation is not None else ""
+            if "Tensor" in ann:
+                kw[p_.arg] = W.tensor(p_.arg)
+                tensors.append(kw[p_.arg])
+            elif p_.arg in ("strike", "a", "cost", "clamped_slope", "dt"):
+                kw[p_.arg] = W.fl(p_.arg)
+        variants = [dict(kw, inverted_output=m_) for m_ in ("mean", "max")] if "inverted_output" in [x.arg for x in a_.args] else [dict(kw, call=c_) for c_ in (True, False)] if "call" in [x.arg for x in a_.args] else [kw]
+        problems = []
+        n_paths = 0
+        for kwv in variants:
+            try:
+                res = [r for r in interp.explore(fi, [], kwv, max_paths=60) if not r["raises"]]
+            except Unsupported as ex:
+                raise AnalysisError(f"{name}: {ex}")
+            n_paths += len(res)
+            for r in res:
+                memo = {}
+
+                def dep(t):
+                    if id(t) in memo:
+                        return memo[id(t)]
+                    v = t in tensors if isinstance(t, Sym) else any(dep(x) for x in args_of(t)) if isinstance(t, Op) else False
+                    memo[id(t)] = v
+                    return v
+                for s in data_walk(r["value"]):
+                    if not isinstance(s, Op):
+                        continue
+                    if s.op in BREAKERS and any(dep(x) for x in args_of(s)):
+                        problems.append(f"{s.op} on a value that depends on a tensor argument")
+                    if s.op == "tensor" and any(isinstance(x, Term) and dep(x) for x in flatten(s.args)):
+                        problems.append("torch.tensor(...) re-wraps (detaches) a value that depends on a tensor argument")
+                    if s.op in ("new_tensor",) and len(s.args) > 1 and any(isinstance(x, Term) and dep(x) for x in flatten(s.args[1:])):
+                        problems.append("new_tensor(...) copy-constructs (detaches) a value that depends on a tensor argument")
+        if n_paths == 0:
+            raise AnalysisError(f"{name}: no analysable path")
+        problems = sorted(set(problems))
+        run.oblige("C14.R5", name, not problems, "; ".join(problems) or f"{n_paths} path(s), no graph-breaking construct on the slice from the tensor arguments")
+        if problems:
+            run.fail(Finding("C14.R5", fi.qualname, "; ".join(problems)[:300], "a model built from this functional does not receive the gradient through it",
+                             file=str(prog.modules[fi.module].path), line=fi.node.lineno))
